@@ -273,7 +273,7 @@ def run(ck):
     # -------------------------------------------------------------------- clamp of the initial guess
     base = get_isotherm_model("Langmuir")
     for i in range(N * 4):
-        lo, hi = rng.choice([(0.0, float("inf")), (1.0, 5.0), (-float("inf"), 2.0), (0.5, 0.5)])
+        lo, hi = rng.choice([(0.0, float("inf")), (1.0, 5.0), (-float("inf"), 2.0), (0.5, 0.5), (5.0, 1.0)])
         v = rng.choice([lo if math.isfinite(lo) else -7.0, hi if math.isfinite(hi) else 9.0, rng.uniform(-3, 8)])
         base.param_bounds["K"] = (lo, hi)
         got = base.initial_guess_bounds({"K": v})["K"]
